@@ -4,7 +4,7 @@ import GateryModel.C09.RegLemmas
 namespace Gatery.C09
 
 theorem inv_init : Inv State.init := by
-  refine ⟨⟨⟨?_, ?_⟩, ⟨?_, ?_⟩, ⟨?_, ?_⟩, ⟨?_, ?_⟩⟩, ?_, ?_, ?_⟩ <;> simp [State.init]
+  refine ⟨⟨⟨?_, ?_⟩, ⟨?_, ?_⟩, ⟨?_, ?_⟩, ⟨?_, ?_⟩, ?_⟩, ?_, ?_, ?_⟩ <;> simp [State.init, CAInv]
 
 theorem setType_spec {s s' : State} {h o : Nat} {t : CType} (hr : setOutputConnectionType s h o t = .ok s') :
     ∃ ct, s' = { s with ctype := ct } := by
@@ -26,11 +26,15 @@ theorem destroyNode_spec {s s' : State} {h : Nat} (hI : GInv s) (hr : destroyNod
   have hl : s.live h := Classical.not_not.mp hl
   split at hr
   · cases hr
-  obtain ⟨hE, hG, hC, hId⟩ := hI
+  obtain ⟨hE, hG, hC, hId, hA⟩ := hI
   obtain ⟨s1, h1, hr⟩ := bind_ok.mp hr
   obtain ⟨gn, gr, rfl, hG1, _, hgr⟩ := moveToGroup_spec hG h1
   obtain ⟨s2, h2, hr⟩ := bind_ok.mp hr
-  obtain ⟨cd, ck, rfl, hC1, _, hck⟩ := detachRange_spec (s := { s with gnodes := gn, grp := gr }) _ hC h2
+  obtain ⟨cd, ck, rfl, hC1, hmon, hck⟩ := detachRange_spec (s := { s with gnodes := gn, grp := gr }) _ hC h2
+  have hA1 : CAInv s.size s.alive s.numClk ck s.calive := ca_mono hA (fun x y v e => by
+    rcases hmon x y with e1 | e1
+    · rw [e1] at e; cases e
+    · left; rw [← e1]; exact e)
   obtain ⟨s3, h3, hr⟩ := bind_ok.mp hr
   obtain ⟨ip, c, ni, rfl, hE1, _, hni, _, _⟩ :=
     resizeInputs_spec (s := { s with gnodes := gn, grp := gr, clocked := cd, clk := ck }) hE h3
@@ -39,7 +43,7 @@ theorem destroyNode_spec {s s' : State} {h : Nat} (hI : GInv s) (hr : destroyNod
     resizeOutputs_spec (s := { s with gnodes := gn, grp := gr, clocked := cd, clk := ck, conns := c, inp := ip, numIn := ni }) hE1 h4
   have e := Except.ok.inj hr
   subst e
-  refine ⟨⟨free_edge hE2 h hni hno, free_group hG1 h hgr, free_clock hC1 h ?_, free_id hId h⟩, rfl, rfl, rfl, hl⟩
+  refine ⟨⟨free_edge hE2 h hni hno, free_group hG1 h hgr, free_clock hC1 h ?_, free_id hId h, free_ca hA1 h⟩, rfl, rfl, rfl, hl⟩
   intro p hp
   exact hck p (List.mem_range.mpr hp)
 
@@ -140,37 +144,183 @@ theorem signalConnect_spec {s s' : State} {h : Nat} {d : Option NodePort} (hE : 
       obtain ⟨ip, c, rfl, h2, _⟩ := connect_spec (s := { s with ctype := ct }) hE hr
       exact ⟨ip, c, ct, rfl, h2⟩
 
+
+/-! ### cloning, copySubnet, clock destruction -/
+
+/-- the part of `inv_step` that the composite operations below are built from -/
+theorem prim_inv {s s' : State} (hI : Inv s) :
+    (∀ sig a b c, Inv (createNode s sig a b c)) ∧
+    (∀ h g, moveToGroup s h g = .ok s' → Inv s') ∧
+    (∀ h i d, connectInput s h i d = .ok s' → Inv s') ∧
+    (∀ h p c, attachClock s h p c = .ok s' → Inv s') ∧
+    Inv (createClock s) := by
+  obtain ⟨⟨hE, hG, hC, hId, hA⟩, hO⟩ := hI
+  refine ⟨?_, ?_, ?_, ?_, ?_⟩
+  · intro sig a b c
+    exact ⟨⟨create_edge hE a b, create_group hG, create_clock hC c, create_id hId, create_ca hA c⟩, create_order hO⟩
+  · intro h g hr
+    obtain ⟨gn, gr, rfl, h1, _⟩ := moveToGroup_spec hG hr
+    exact ⟨⟨hE, h1, hC, hId, hA⟩, hO⟩
+  · intro h i d hr
+    obtain ⟨ip, c, rfl, h1, _⟩ := connect_spec hE hr
+    exact ⟨⟨h1, hG, hC, hId, hA⟩, hO⟩
+  · intro h p c hr
+    obtain ⟨cd, ck, rfl, h1, hprov⟩ := attachClock_spec hC hr
+    exact ⟨⟨hE, hG, h1, hId, ca_mono hA hprov⟩, hO⟩
+  · exact ⟨⟨hE, hG, newclock_clock hC, hId, newclock_ca hA _⟩, hO⟩
+
+theorem cloneNode_inv {s s' : State} {src : Nat} (hI : Inv s) (hr : cloneNode s src = .ok s') : Inv s' := by
+  unfold cloneNode at hr
+  split at hr
+  · cases hr
+  simp only at hr
+  have h1 : Inv (createNode s (s.isSig src) (s.numIn src) (s.numOut src) (s.numClk src)) := (prim_inv (s' := s) hI).1 _ _ _ _
+  -- changing output types does not touch anything the invariant mentions
+  have h2 : Inv { createNode s (s.isSig src) (s.numIn src) (s.numOut src) (s.numClk src) with
+      ctype := fun x y => if x = s.size then s.ctype src y
+        else (createNode s (s.isSig src) (s.numIn src) (s.numOut src) (s.numClk src)).ctype x y } := h1
+  exact (prim_inv h2).2.1 _ _ hr
+
+theorem fresh_id {size : Nat} {alive : Nat → Bool} {nid : Nat → Nat} {nextId : Nat}
+    (hI : IdInv size alive nid nextId) (h : Nat) : IdInv size alive (upd nid h nextId) (nextId + 1) := by
+  obtain ⟨h1, h2⟩ := hI
+  constructor
+  · intro x hs ha
+    rw [upd_apply]; split
+    · omega
+    · have := h1 x hs ha; omega
+  · intro x hs ha k hk hka e
+    simp only [upd_apply] at e
+    by_cases e1 : x = h <;> by_cases e2 : k = h
+    · omega
+    · rw [if_pos e1, if_neg e2] at e; have := h1 k hk hka; omega
+    · rw [if_neg e1, if_pos e2] at e; have := h1 x hs ha; omega
+    · rw [if_neg e1, if_neg e2] at e; exact h2 x hs ha k hk hka e
+
+theorem setFreshId_inv {s : State} (h : Nat) (hI : Inv s) : Inv (setFreshId s h) := by
+  obtain ⟨⟨hE, hG, hC, hId, hA⟩, hO⟩ := hI
+  exact ⟨⟨hE, hG, hC, fresh_id hId h, hA⟩, hO⟩
+
+theorem foldRes_inv {α : Type} (f : State → α → Res State)
+    (hf : ∀ s a s', Inv s → f s a = .ok s' → Inv s') :
+    ∀ (l : List α) (s s' : State), Inv s → foldRes f s l = .ok s' → Inv s' := by
+  intro l
+  induction l with
+  | nil => intro s s' hI hr; have e := Except.ok.inj hr; subst e; exact hI
+  | cons a l ih =>
+    intro s s' hI hr
+    obtain ⟨s1, h1, h2⟩ := bind_ok.mp hr
+    exact ih s1 s' (hf s a s1 hI h1) h2
+
+theorem copyScan_inv (inputs : List NodePort) :
+    ∀ (fuel : Nat) (s : State) (op : List NodePort) (closed : List Nat) (m : List (Nat × Nat)) (s' : State) (m' : List (Nat × Nat)),
+      Inv s → copyScan inputs fuel s op closed m = .ok (s', m') → Inv s' := by
+  intro fuel
+  induction fuel with
+  | zero =>
+    intro s op closed m s' m' hI hr
+    unfold copyScan at hr
+    split at hr
+    · have e := Except.ok.inj hr
+      injection e with e1 e2; subst e1; exact hI
+    · cases hr
+  | succ n ih =>
+    intro s op closed m s' m' hI hr
+    unfold copyScan at hr
+    split at hr
+    · have e := Except.ok.inj hr
+      injection e with e1 e2; subst e1; exact hI
+    · split at hr
+      · exact ih _ _ _ _ _ _ hI hr
+      · obtain ⟨s1, h1, h2⟩ := bind_ok.mp hr
+        exact ih _ _ _ _ _ _ (cloneNode_inv hI h1) h2
+
+theorem foldl_setFreshId_inv (l : List (Nat × Nat)) : ∀ (s : State), Inv s → Inv (l.foldl (fun s e => setFreshId s e.2) s) := by
+  induction l with
+  | nil => intro s hI; exact hI
+  | cons a l ih => intro s hI; exact ih _ (setFreshId_inv a.2 hI)
+
+theorem copyReconnect_inv (m : List (Nat × Nat)) (cc : Bool) (s : State) (e : Nat × Nat) (s' : State)
+    (hI : Inv s) (hr : copyReconnect m cc s e = .ok s') : Inv s' := by
+  obtain ⟨old, new⟩ := e
+  unfold copyReconnect at hr
+  simp only at hr
+  obtain ⟨s1, h1, h2⟩ := bind_ok.mp hr
+  have hI1 : Inv s1 := by
+    refine foldRes_inv _ ?_ _ _ _ hI h1
+    intro s0 i s0' hI0 hr0
+    try simp only at hr0
+    split at hr0
+    · have e := Except.ok.inj hr0; subst e; exact hI0
+    · split at hr0
+      · have e := Except.ok.inj hr0; subst e; exact hI0
+      · exact (prim_inv hI0).2.2.1 _ _ _ hr0
+  refine foldRes_inv _ ?_ _ _ _ hI1 h2
+  intro s0 p s0' hI0 hr0
+  try simp only at hr0
+  split at hr0
+  · have e := Except.ok.inj hr0; subst e; exact hI0
+  · split at hr0
+    · exact (prim_inv (s' := s0') (prim_inv (s' := s0) hI0).2.2.2.2).2.2.2.1 _ _ _ hr0
+    · exact (prim_inv hI0).2.2.2.1 _ _ _ hr0
+
+theorem copySubnet_inv {s s' : State} {ins outs : List NodePort} {cc : Bool} (hI : Inv s)
+    (hr : copySubnet s ins outs cc = .ok s') : Inv s' := by
+  unfold copySubnet at hr
+  split at hr
+  · cases hr
+  simp only at hr
+  obtain ⟨⟨s1, m⟩, h1, h2⟩ := bind_ok.mp hr
+  have hI1 : Inv s1 := copyScan_inv ins _ _ _ _ _ _ _ hI h1
+  simp only at h2
+  exact foldRes_inv _ (copyReconnect_inv m cc) _ _ _ (foldl_setFreshId_inv _ _ hI1) h2
+
+theorem destroyClock_inv {s s' : State} {c : Nat} (hI : Inv s) (hr : destroyClock s c = .ok s') : Inv s' := by
+  obtain ⟨⟨hE, hG, hC, hId, hA⟩, hO⟩ := hI
+  unfold destroyClock at hr
+  split at hr
+  · cases hr
+  obtain ⟨s1, h1, h2⟩ := bind_ok.mp hr
+  obtain ⟨cd, ck, rfl, hC1, hz, hmon⟩ := drainClock_spec _ hC h1
+  have e := Except.ok.inj h2
+  subst e
+  have hA1 : CAInv s.size s.alive s.numClk ck s.calive := ca_mono hA (fun x y v e => by
+    rcases hmon x y with e1 | e1
+    · rw [e1] at e; cases e
+    · left; rw [← e1]; exact e)
+  exact ⟨⟨hE, hG, hC1, hId, killclock_ca hA1 hC1 c hz⟩, hO⟩
+
 /-- every operation preserves the invariant -/
 theorem inv_step {s s' : State} (op : Op) (hI : Inv s) (hr : step s op = .ok s') : Inv s' := by
-  obtain ⟨⟨hE, hG, hC, hId⟩, hO⟩ := hI
+  obtain ⟨⟨hE, hG, hC, hId, hA⟩, hO⟩ := hI
   cases op with
   | createNode sig a b c =>
     have e := Except.ok.inj hr
     subst e
-    exact ⟨⟨create_edge hE a b, create_group hG, create_clock hC c, create_id hId⟩, create_order hO⟩
+    exact ⟨⟨create_edge hE a b, create_group hG, create_clock hC c, create_id hId, create_ca hA c⟩, create_order hO⟩
   | createGroup =>
     have e := Except.ok.inj hr
     subst e
-    exact ⟨⟨hE, newgroup_group hG, hC, hId⟩, hO⟩
+    exact ⟨⟨hE, newgroup_group hG, hC, hId, hA⟩, hO⟩
   | createClock =>
     have e := Except.ok.inj hr
     subst e
-    exact ⟨⟨hE, hG, newclock_clock hC, hId⟩, hO⟩
+    exact ⟨⟨hE, hG, newclock_clock hC, hId, newclock_ca hA _⟩, hO⟩
   | connect h i d =>
     obtain ⟨ip, c, rfl, h1, _⟩ := connect_spec hE hr
-    exact ⟨⟨h1, hG, hC, hId⟩, hO⟩
+    exact ⟨⟨h1, hG, hC, hId, hA⟩, hO⟩
   | disconnect h i =>
     obtain ⟨ip, c, rfl, h1, _⟩ := disconnect_spec hE hr
-    exact ⟨⟨h1, hG, hC, hId⟩, hO⟩
+    exact ⟨⟨h1, hG, hC, hId, hA⟩, hO⟩
   | signalConnect h d =>
     obtain ⟨ip, c, ct, rfl, h1⟩ := signalConnect_spec hE hr
-    exact ⟨⟨h1, hG, hC, hId⟩, hO⟩
+    exact ⟨⟨h1, hG, hC, hId, hA⟩, hO⟩
   | resizeInputs h n =>
     obtain ⟨ip, c, ni, rfl, h1, _⟩ := resizeInputs_spec hE hr
-    exact ⟨⟨h1, hG, hC, hId⟩, hO⟩
+    exact ⟨⟨h1, hG, hC, hId, hA⟩, hO⟩
   | resizeOutputs h n =>
     obtain ⟨ip, c, no, ct, rfl, h1, _⟩ := resizeOutputs_spec hE hr
-    exact ⟨⟨h1, hG, hC, hId⟩, hO⟩
+    exact ⟨⟨h1, hG, hC, hId, hA⟩, hO⟩
   | bypass h o i =>
     simp only [step] at hr
     unfold bypassOutputToInput at hr
@@ -181,22 +331,26 @@ theorem inv_step {s s' : State} (op : Op) (hI : Inv s) (hr : step s op = .ok s')
     split at hr
     · cases hr
     obtain ⟨ip, c, rfl, h1, _⟩ := bypassLoop_spec _ hE hr
-    exact ⟨⟨h1, hG, hC, hId⟩, hO⟩
+    exact ⟨⟨h1, hG, hC, hId, hA⟩, hO⟩
   | setType h o t =>
     obtain ⟨ct, rfl⟩ := setType_spec hr
-    exact ⟨⟨hE, hG, hC, hId⟩, hO⟩
+    exact ⟨⟨hE, hG, hC, hId, hA⟩, hO⟩
   | moveToGroup h g =>
     obtain ⟨gn, gr, rfl, h1, _⟩ := moveToGroup_spec hG hr
-    exact ⟨⟨hE, h1, hC, hId⟩, hO⟩
+    exact ⟨⟨hE, h1, hC, hId, hA⟩, hO⟩
   | attachClock h p c =>
-    obtain ⟨cd, ck, rfl, h1⟩ := attachClock_spec hC hr
-    exact ⟨⟨hE, hG, h1, hId⟩, hO⟩
+    obtain ⟨cd, ck, rfl, h1, hprov⟩ := attachClock_spec hC hr
+    exact ⟨⟨hE, hG, h1, hId, ca_mono hA hprov⟩, hO⟩
   | detachClock h p =>
-    obtain ⟨cd, ck, rfl, h1, _⟩ := detachClock_spec hC hr
-    exact ⟨⟨hE, hG, h1, hId⟩, hO⟩
+    obtain ⟨cd, ck, rfl, h1, _, _, _, hmon⟩ := detachClock_spec hC hr
+    have hA1 : CAInv s.size s.alive s.numClk ck s.calive := ca_mono hA (fun x y v e => by
+      rcases hmon x y with e1 | e1
+      · rw [e1] at e; cases e
+      · left; rw [← e1]; exact e)
+    exact ⟨⟨hE, hG, h1, hId, hA1⟩, hO⟩
   | addClock h c =>
-    obtain ⟨cd, ck, nk, rfl, h1⟩ := addClock_spec hC hr
-    exact ⟨⟨hE, hG, h1, hId⟩, hO⟩
+    obtain ⟨cd, ck, nk, rfl, h1, hprov, hnk, _⟩ := addClock_spec hC hr
+    exact ⟨⟨hE, hG, h1, hId, grow_ca hA h hprov hnk⟩, hO⟩
   | addRef h =>
     simp only [step] at hr
     unfold addRef at hr
@@ -204,7 +358,7 @@ theorem inv_step {s s' : State} (op : Op) (hI : Inv s) (hr : step s op = .ok s')
     · cases hr
     · have e := Except.ok.inj hr
       subst e
-      exact ⟨⟨hE, hG, hC, hId⟩, hO⟩
+      exact ⟨⟨hE, hG, hC, hId, hA⟩, hO⟩
   | removeRef h =>
     simp only [step] at hr
     unfold removeRef at hr
@@ -214,9 +368,12 @@ theorem inv_step {s s' : State} (op : Op) (hI : Inv s) (hr : step s op = .ok s')
       · cases hr
       · have e := Except.ok.inj hr
         subst e
-        exact ⟨⟨hE, hG, hC, hId⟩, hO⟩
-  | eraseNode idx => exact eraseNode_inv ⟨⟨hE, hG, hC, hId⟩, hO⟩ hr
-  | cullOrphanedSignals => exact cull_inv ⟨⟨hE, hG, hC, hId⟩, hO⟩ hr
+        exact ⟨⟨hE, hG, hC, hId, hA⟩, hO⟩
+  | eraseNode idx => exact eraseNode_inv ⟨⟨hE, hG, hC, hId, hA⟩, hO⟩ hr
+  | cullOrphanedSignals => exact cull_inv ⟨⟨hE, hG, hC, hId, hA⟩, hO⟩ hr
+  | cloneNode src => exact cloneNode_inv ⟨⟨hE, hG, hC, hId, hA⟩, hO⟩ hr
+  | copySubnet ins outs cc => exact copySubnet_inv ⟨⟨hE, hG, hC, hId, hA⟩, hO⟩ hr
+  | destroyClock c => exact destroyClock_inv ⟨⟨hE, hG, hC, hId, hA⟩, hO⟩ hr
 
 theorem inv_run (ops : List Op) : ∀ {s s' : State}, Inv s → run s ops = .ok s' → Inv s' := by
   induction ops with
